@@ -1,9 +1,12 @@
 (* Proofs about Model/DeltaExpr.v: the expression part of the second-generation parser
-   builds the tree of the reference parser (Model/RefParser.v), up to the folding of
-   negated literals, on every token list the reference parser accepts - except that it
-   rejects references with exactly MAX_REFERENCE_DEPTH steps - and accepts strictly
-   more (ill-formed cast types, bitwise / shift operators after an unparenthesized
-   binary expression). *)
+   (with `for _ in 0..=MAX_REFERENCE_DEPTH` in parse_deref_steps_list, the repair of the
+   127-steps defect) builds the tree of the reference parser (Model/RefParser.v), up to
+   the folding of negated literals, on EVERY token list the reference parser accepts,
+   and accepts strictly more (ill-formed cast types, bitwise / shift operators after an
+   unparenthesized binary expression).  The parser before the repair
+   (parse_expression_pinned_res) rejects references with exactly MAX_REFERENCE_DEPTH
+   steps; the proofs of that direction are generic in the number [lim] of iterations of
+   the steps loop. *)
 From PV Require Import Base.Common Base.IR Base.Tok Model.RefParser Model.DeltaExpr.
 From PV Require Import Proofs.RefParserProofs.
 
@@ -66,6 +69,165 @@ Lemma D_as_loop_S f acc ts : D.as_loop (S f) acc ts =
     else Ok (acc, ts).
 Proof. reflexivity. Qed.
 
+(* generic in the number of iterations [lim] of the steps loop *)
+Lemma Dg_parse_addition_S lim f ts : D.parse_addition_g lim (S f) ts =
+    bind (D.parse_multiplication_g lim f ts) (fun '(e, ts1) => D.add_loop_g lim f e ts1).
+Proof. reflexivity. Qed.
+
+Lemma Dg_add_loop_S lim f acc ts : D.add_loop_g lim (S f) acc ts =
+    match bitop_of (hdk ts) with
+    | Some op => D.bit_loop_g lim f op acc (tl ts)
+    | None =>
+      match shiftop_of (hdk ts) with
+      | Some op =>
+          bind (D.parse_unary_g lim f (tl ts)) (fun '(r, ts1) => Ok (EBinary op acc r, ts1))
+      | None =>
+        match addop_of (hdk ts) with
+        | Some op =>
+            bind (D.parse_multiplication_g lim f (tl ts)) (fun '(r, ts1) =>
+              D.add_loop_g lim f (EBinary op acc r) ts1)
+        | None => Ok (acc, ts)
+        end
+      end
+    end.
+Proof. reflexivity. Qed.
+
+Lemma Dg_bit_loop_S lim f op acc ts : D.bit_loop_g lim (S f) op acc ts =
+    bind (D.parse_unary_g lim f ts) (fun '(r, ts1) =>
+      if same_bitop op (hdk ts1) then D.bit_loop_g lim f op (EBinary op acc r) (tl ts1)
+      else Ok (EBinary op acc r, ts1)).
+Proof. reflexivity. Qed.
+
+Lemma Dg_parse_multiplication_S lim f ts : D.parse_multiplication_g lim (S f) ts =
+    bind (D.parse_singular_g lim f ts) (fun '(e, ts1) => D.mul_loop_g lim f e ts1).
+Proof. reflexivity. Qed.
+
+Lemma Dg_mul_loop_S lim f acc ts : D.mul_loop_g lim (S f) acc ts =
+    match mulop_of (hdk ts) with
+    | Some op =>
+        bind (D.parse_singular_g lim f (tl ts)) (fun '(r, ts1) => D.mul_loop_g lim f (EBinary op acc r) ts1)
+    | None => Ok (acc, ts)
+    end.
+Proof. reflexivity. Qed.
+
+Lemma Dg_parse_singular_S lim f ts : D.parse_singular_g lim (S f) ts =
+    if isCast (hdk ts) then
+      bind (D.parse_unary_g lim f (tl ts)) (fun '(e, ts1) => D.as_loop f (EBitCast e) ts1)
+    else
+      bind (D.parse_unary_g lim f ts) (fun '(e, ts1) => D.as_loop f e ts1).
+Proof. reflexivity. Qed.
+
+Lemma Dg_parse_unary_S lim f ts : D.parse_unary_g lim (S f) ts =
+    match hdk ts with
+    | KPipeForType =>
+        bind (D.parse_type f (tl ts)) (fun '(t, ts1) =>
+        bind (expect_r isPipe ts1) (fun ts2 => Ok (ESizeOf t, ts2)))
+    | KPipe =>
+        bind (D.parse_reference_g lim f (tl ts)) (fun '(r, ts1) =>
+        bind (expect_r isPipe ts1) (fun ts2 => Ok (ELength r, ts2)))
+    | KExclamation =>
+        bind (D.parse_primary_g lim f (tl ts)) (fun '(e, ts1) => Ok (EUnary BitwiseComplement e, ts1))
+    | KMinus =>
+        bind (D.parse_primary_g lim f (tl ts)) (fun '(e, ts1) => Ok (EUnary Negative e, ts1))
+    | _ => D.parse_primary_g lim f ts
+    end.
+Proof. reflexivity. Qed.
+
+Lemma Dg_parse_primary_S lim f ts : D.parse_primary_g lim (S f) ts =
+    match ts with
+    | [] => Err UnexpectedToken
+    | t :: ts1 =>
+      match kind t with
+      | KNakedDecimal | KBitInteger | KSuffixedInteger | KCharLiteral | KBool =>
+          match literal_of t with
+          | Some e => Ok (e, ts1)
+          | None => Err UnexpectedToken
+          end
+      | KStringLiteral =>
+          let '(bs, ts2) := take_strings ts1 in Ok (EString (bytes t ++ bs), ts2)
+      | KAmpersand =>
+          bind (D.parse_addressed_g lim f ts1) (fun '(r, ts2) =>
+            if isDots (hdk ts2) then
+              bind (D.parse_addition_g lim f (tl ts2)) (fun '(off, ts3) =>
+                Ok (EBinary AdvancePointer (EDeref r) off, ts3))
+            else Ok (EDeref r, ts2))
+      | KIdentifier =>
+          if isParenLeft (hdk ts1) then
+            bind (D.expr_list_g lim f false (tl ts1)) (fun '(args, ts2) =>
+              Ok (ECall false (tok_name t) args, ts2))
+          else if isBraceLeft (hdk ts1) then
+            bind (D.members_loop_g lim f (tl ts1)) (fun '(ms, ts2) =>
+              Ok (EStructural (tok_name t) ms, ts2))
+          else
+            bind (D.steps_loop_g lim f O ts1) (fun '(steps, ts2) =>
+              Ok (EDeref (Ref 0%N (tok_name t) steps), ts2))
+      | KBuiltin =>
+          bind (expect_r isParenLeft ts1) (fun ts2 =>
+          bind (D.expr_list_g lim f false ts2) (fun '(args, ts3) =>
+            Ok (ECall true (tok_name t) args, ts3)))
+      | KBracketLeft =>
+          bind (D.expr_list_g lim f true ts1) (fun '(es, ts2) => Ok (EArray es, ts2))
+      | KParenLeft =>
+          bind (D.parse_addition_g lim f ts1) (fun '(e, ts2) =>
+          bind (expect_r isParenRight ts2) (fun ts3 => Ok (EParen e, ts3)))
+      | _ => Err UnexpectedToken
+      end
+    end.
+Proof. reflexivity. Qed.
+
+Lemma Dg_expr_list_S lim f br ts : D.expr_list_g lim (S f) br ts =
+    if is_close br (hdk ts) then Ok ([], tl ts)
+    else
+      bind (D.parse_addition_g lim f ts) (fun '(e, ts1) =>
+        if isComma (hdk ts1) then
+          bind (D.expr_list_g lim f br (tl ts1)) (fun '(es, ts2) => Ok (e :: es, ts2))
+        else
+          bind (expect_r (is_close br) ts1) (fun ts2 => Ok ([e], ts2))).
+Proof. reflexivity. Qed.
+
+Lemma Dg_members_loop_S lim f ts : D.members_loop_g lim (S f) ts =
+    if isBraceRight (hdk ts) then Ok ([], tl ts)
+    else
+      bind (expect_id_r ts) (fun '(n, ts1) =>
+      bind (if isColon (hdk ts1) then D.parse_addition_g lim f (tl ts1)
+            else Ok (EDeref (Ref 0%N n []), ts1)) (fun '(e, ts2) =>
+        if isComma (hdk ts2) then
+          bind (D.members_loop_g lim f (tl ts2)) (fun '(ms, ts3) => Ok ((n, e) :: ms, ts3))
+        else
+          bind (expect_r isBraceRight ts2) (fun ts3 => Ok ([(n, e)], ts3)))).
+Proof. reflexivity. Qed.
+
+Lemma Dg_parse_addressed_S lim f ts : D.parse_addressed_g lim (S f) ts =
+    match amp_loop 1%N ts with
+    | None => Err DepthExceeded
+    | Some (d, ts1) =>
+        bind (expect_id_r ts1) (fun '(b, ts2) =>
+        bind (D.steps_loop_g lim f O ts2) (fun '(steps, ts3) => Ok (Ref d b steps, ts3)))
+    end.
+Proof. reflexivity. Qed.
+
+Lemma Dg_parse_reference_S lim f ts : D.parse_reference_g lim (S f) ts =
+    match amp_loop 0%N ts with
+    | None => Err DepthExceeded
+    | Some (d, ts1) =>
+        bind (expect_id_r ts1) (fun '(b, ts2) =>
+        bind (D.steps_loop_g lim f O ts2) (fun '(steps, ts3) => Ok (Ref d b steps, ts3)))
+    end.
+Proof. reflexivity. Qed.
+
+Lemma Dg_steps_loop_S lim f k ts : D.steps_loop_g lim (S f) k ts =
+    if (lim <=? k)%nat then Err DepthExceeded
+    else if isBracketLeft (hdk ts) then
+      bind (D.parse_addition_g lim f (tl ts)) (fun '(e, ts1) =>
+      bind (expect_r isBracketRight ts1) (fun ts2 =>
+      bind (D.steps_loop_g lim f (S k) ts2) (fun '(ss, ts3) => Ok (RsElement e :: ss, ts3))))
+    else if isDot (hdk ts) then
+      bind (expect_id_r (tl ts)) (fun '(m, ts1) =>
+      bind (D.steps_loop_g lim f (S k) ts1) (fun '(ss, ts2) => Ok (RsMember m :: ss, ts2)))
+    else Ok ([], ts).
+Proof. reflexivity. Qed.
+
+(* the model (repaired code): lim = REPAIRED_ITERATIONS *)
 Lemma D_parse_addition_S f ts : D.parse_addition (S f) ts =
     bind (D.parse_multiplication f ts) (fun '(e, ts1) => D.add_loop f e ts1).
 Proof. reflexivity. Qed.
@@ -212,7 +374,7 @@ Lemma D_parse_reference_S f ts : D.parse_reference (S f) ts =
 Proof. reflexivity. Qed.
 
 Lemma D_steps_loop_S f k ts : D.steps_loop (S f) k ts =
-    if (MAX_REFERENCE_DEPTH <=? k)%nat then Err DepthExceeded
+    if (REPAIRED_ITERATIONS <=? k)%nat then Err DepthExceeded
     else if isBracketLeft (hdk ts) then
       bind (D.parse_addition f (tl ts)) (fun '(e, ts1) =>
       bind (expect_r isBracketRight ts1) (fun ts2 =>
@@ -273,44 +435,48 @@ Proof.
   pose proof (D_parse_inner_type_mono1 f) as HT. unfold D.parse_type. mono_tac.
 Qed.
 
-Definition mono_all (f : nat) : Prop :=
-  (forall ts, le_res (D.parse_addition f ts) (D.parse_addition (S f) ts)) /\
-  (forall acc ts, le_res (D.add_loop f acc ts) (D.add_loop (S f) acc ts)) /\
-  (forall op acc ts, le_res (D.bit_loop f op acc ts) (D.bit_loop (S f) op acc ts)) /\
-  (forall ts, le_res (D.parse_multiplication f ts) (D.parse_multiplication (S f) ts)) /\
-  (forall acc ts, le_res (D.mul_loop f acc ts) (D.mul_loop (S f) acc ts)) /\
-  (forall ts, le_res (D.parse_singular f ts) (D.parse_singular (S f) ts)) /\
-  (forall ts, le_res (D.parse_unary f ts) (D.parse_unary (S f) ts)) /\
-  (forall ts, le_res (D.parse_primary f ts) (D.parse_primary (S f) ts)) /\
-  (forall br ts, le_res (D.expr_list f br ts) (D.expr_list (S f) br ts)) /\
-  (forall ts, le_res (D.members_loop f ts) (D.members_loop (S f) ts)) /\
-  (forall ts, le_res (D.parse_addressed f ts) (D.parse_addressed (S f) ts)) /\
-  (forall ts, le_res (D.parse_reference f ts) (D.parse_reference (S f) ts)) /\
-  (forall k ts, le_res (D.steps_loop f k ts) (D.steps_loop (S f) k ts)).
+Definition mono_all_g (lim f : nat) : Prop :=
+  (forall ts, le_res (D.parse_addition_g lim f ts) (D.parse_addition_g lim (S f) ts)) /\
+  (forall acc ts, le_res (D.add_loop_g lim f acc ts) (D.add_loop_g lim (S f) acc ts)) /\
+  (forall op acc ts, le_res (D.bit_loop_g lim f op acc ts) (D.bit_loop_g lim (S f) op acc ts)) /\
+  (forall ts, le_res (D.parse_multiplication_g lim f ts) (D.parse_multiplication_g lim (S f) ts)) /\
+  (forall acc ts, le_res (D.mul_loop_g lim f acc ts) (D.mul_loop_g lim (S f) acc ts)) /\
+  (forall ts, le_res (D.parse_singular_g lim f ts) (D.parse_singular_g lim (S f) ts)) /\
+  (forall ts, le_res (D.parse_unary_g lim f ts) (D.parse_unary_g lim (S f) ts)) /\
+  (forall ts, le_res (D.parse_primary_g lim f ts) (D.parse_primary_g lim (S f) ts)) /\
+  (forall br ts, le_res (D.expr_list_g lim f br ts) (D.expr_list_g lim (S f) br ts)) /\
+  (forall ts, le_res (D.members_loop_g lim f ts) (D.members_loop_g lim (S f) ts)) /\
+  (forall ts, le_res (D.parse_addressed_g lim f ts) (D.parse_addressed_g lim (S f) ts)) /\
+  (forall ts, le_res (D.parse_reference_g lim f ts) (D.parse_reference_g lim (S f) ts)) /\
+  (forall k ts, le_res (D.steps_loop_g lim f k ts) (D.steps_loop_g lim (S f) k ts)).
 
-Lemma D_mono_all f : mono_all f.
+Lemma Dg_mono_all lim f : mono_all_g lim f.
 Proof.
   induction f as [|f IH].
-  - unfold mono_all. repeat split; intros; intros H; now elim H.
+  - unfold mono_all_g. repeat split; intros; intros H; now elim H.
   - destruct IH as (Hadd & Haddl & Hbit & Hmul & Hmull & Hsing & Hun & Hprim & Hlist & Hmem
                     & Haddr & Href & Hsteps).
     pose proof (D_parse_inner_type_mono1 f) as HT.
     pose proof (D_as_loop_mono1 f) as HA.
-    unfold mono_all. repeat split; intros.
-    + rewrite (D_parse_addition_S (S f)), D_parse_addition_S. mono_tac.
-    + rewrite (D_add_loop_S (S f)), D_add_loop_S. mono_tac.
-    + rewrite (D_bit_loop_S (S f)), D_bit_loop_S. mono_tac.
-    + rewrite (D_parse_multiplication_S (S f)), D_parse_multiplication_S. mono_tac.
-    + rewrite (D_mul_loop_S (S f)), D_mul_loop_S. mono_tac.
-    + rewrite (D_parse_singular_S (S f)), D_parse_singular_S. mono_tac.
-    + rewrite (D_parse_unary_S (S f)), D_parse_unary_S. unfold D.parse_type. mono_tac.
-    + rewrite (D_parse_primary_S (S f)), D_parse_primary_S. mono_tac.
-    + rewrite (D_expr_list_S (S f)), D_expr_list_S. mono_tac.
-    + rewrite (D_members_loop_S (S f)), D_members_loop_S. mono_tac.
-    + rewrite (D_parse_addressed_S (S f)), D_parse_addressed_S. mono_tac.
-    + rewrite (D_parse_reference_S (S f)), D_parse_reference_S. mono_tac.
-    + rewrite (D_steps_loop_S (S f)), D_steps_loop_S. mono_tac.
+    unfold mono_all_g. repeat split; intros.
+    + rewrite (Dg_parse_addition_S lim (S f)), (Dg_parse_addition_S lim). mono_tac.
+    + rewrite (Dg_add_loop_S lim (S f)), (Dg_add_loop_S lim). mono_tac.
+    + rewrite (Dg_bit_loop_S lim (S f)), (Dg_bit_loop_S lim). mono_tac.
+    + rewrite (Dg_parse_multiplication_S lim (S f)), (Dg_parse_multiplication_S lim). mono_tac.
+    + rewrite (Dg_mul_loop_S lim (S f)), (Dg_mul_loop_S lim). mono_tac.
+    + rewrite (Dg_parse_singular_S lim (S f)), (Dg_parse_singular_S lim). mono_tac.
+    + rewrite (Dg_parse_unary_S lim (S f)), (Dg_parse_unary_S lim). unfold D.parse_type. mono_tac.
+    + rewrite (Dg_parse_primary_S lim (S f)), (Dg_parse_primary_S lim). mono_tac.
+    + rewrite (Dg_expr_list_S lim (S f)), (Dg_expr_list_S lim). mono_tac.
+    + rewrite (Dg_members_loop_S lim (S f)), (Dg_members_loop_S lim). mono_tac.
+    + rewrite (Dg_parse_addressed_S lim (S f)), (Dg_parse_addressed_S lim). mono_tac.
+    + rewrite (Dg_parse_reference_S lim (S f)), (Dg_parse_reference_S lim). mono_tac.
+    + rewrite (Dg_steps_loop_S lim (S f)), (Dg_steps_loop_S lim). mono_tac.
 Qed.
+
+Definition mono_all (f : nat) : Prop := mono_all_g REPAIRED_ITERATIONS f.
+Lemma D_mono_all f : mono_all f.
+Proof. apply Dg_mono_all. Qed.
 
 Lemma le_res_le {A : Type} (g : nat -> res A) :
   (forall f, le_res (g f) (g (S f))) -> forall f f', f <= f' -> le_res (g f) (g f').
@@ -319,14 +485,24 @@ Proof.
   eapply le_res_trans; [exact IH|apply Hstep].
 Qed.
 
-(* More fuel never changes a definite answer of the second-generation model. *)
+(* More fuel never changes a definite answer of the second-generation model
+   (whatever the number of iterations of the steps loop). *)
+Lemma Dg_parse_addition_mono lim f f' ts r :
+  f <= f' -> D.parse_addition_g lim f ts = r -> r <> Fuel -> D.parse_addition_g lim f' ts = r.
+Proof.
+  intros Hle Hr Hn. subst r.
+  apply (le_res_le (fun f => D.parse_addition_g lim f ts)); auto.
+  intros f0. apply Dg_mono_all.
+Qed.
+
 Theorem D_parse_expression_mono f f' ts r :
   f <= f' -> D.parse_expression_res f ts = r -> r <> Fuel -> D.parse_expression_res f' ts = r.
-Proof.
-  intros Hle Hr Hn. subst r. unfold D.parse_expression_res in *.
-  apply (le_res_le (fun f => D.parse_addition f ts)); auto.
-  intros f0. apply D_mono_all.
-Qed.
+Proof. apply Dg_parse_addition_mono. Qed.
+
+Theorem D_parse_expression_pinned_mono f f' ts r :
+  f <= f' -> D.parse_expression_pinned_res f ts = r -> r <> Fuel ->
+  D.parse_expression_pinned_res f' ts = r.
+Proof. apply Dg_parse_addition_mono. Qed.
 
 (* ------------------------------------------------------------------------- *)
 (* Small facts about the specification-side functions                         *)
@@ -344,8 +520,8 @@ Proof.
   destruct op; cbn [fold_negative_literals is_binary]; [apply fold_neg_not_binary|reflexivity].
 Qed.
 
-Lemma steps_ok_fold_neg p : steps_ok (fold_neg p) = steps_ok p.
-Proof. destruct p; cbn [fold_neg steps_ok]; try reflexivity;
+Lemma steps_ok_fold_neg lim p : steps_ok_g lim (fold_neg p) = steps_ok_g lim p.
+Proof. destruct p; cbn [fold_neg steps_ok_g]; try reflexivity;
   match goal with |- context [if ?c then _ else _] => destruct c end; reflexivity. Qed.
 
 Lemma R_minus_is_fold_neg (p : expr) (ts1 : list tok) :
@@ -372,8 +548,8 @@ Proof. destruct k; cbn; intros H; inversion H; reflexivity. Qed.
 Lemma binop_eqb_refl op : binop_eqb op op = true.
 Proof. destruct op; reflexivity. Qed.
 
-Lemma literal_facts t e : literal_of t = Some e ->
-  steps_ok e = true /\ foldE e = e /\ admissible e = true.
+Lemma literal_facts lim t e : literal_of t = Some e ->
+  steps_ok_g lim e = true /\ foldE e = e /\ admissible e = true.
 Proof.
   unfold literal_of. intros H.
   destruct (kind t); try discriminate;
@@ -424,13 +600,37 @@ Qed.
 (* reference with 127 steps)                                                  *)
 (* ------------------------------------------------------------------------- *)
 
-Lemma steps_bin_l op l r : steps_ok l = false -> steps_ok (EBinary op l r) = false.
-Proof. intros H. cbn [steps_ok]. now rewrite H. Qed.
-Lemma steps_bin_r op l r : steps_ok r = false -> steps_ok (EBinary op l r) = false.
-Proof. intros H. cbn [steps_ok]. rewrite H. apply andb_false_r. Qed.
+Lemma expect_tl p ts r : expect p ts = Some r -> r = tl ts.
+Proof. destruct ts as [|t ts']; cbn [expect]; [discriminate|].
+  destruct (p (kind t)); [|discriminate]. intros H; inversion H; reflexivity. Qed.
+
+Lemma amp_loop_count : forall ts d0, (d0 <= MAX_ADDRESS_DEPTH)%N ->
+  amp_loop d0 ts =
+    let '(n, r) := count_amps ts in
+    if (MAX_ADDRESS_DEPTH <? d0 + n)%N then None else Some ((d0 + n)%N, r).
+Proof.
+  induction ts as [|t ts IH]; intros d0 Hd; cbn [amp_loop count_amps].
+  - rewrite N.add_0_r. destruct (N.ltb_spec MAX_ADDRESS_DEPTH d0); [lia|reflexivity].
+  - destruct (isAmpersand (kind t)).
+    + destruct (N.ltb_spec MAX_ADDRESS_DEPTH (d0 + 1)) as [Hlt|Hge].
+      * destruct (count_amps ts) as [n r].
+        destruct (N.ltb_spec MAX_ADDRESS_DEPTH (d0 + N.succ n)); [reflexivity|lia].
+      * rewrite IH by lia. destruct (count_amps ts) as [n r].
+        replace (d0 + 1 + n)%N with (d0 + N.succ n)%N by lia. reflexivity.
+    + rewrite N.add_0_r. destruct (N.ltb_spec MAX_ADDRESS_DEPTH d0); [lia|reflexivity].
+Qed.
+
+Section PA_generic.
+  Variable lim : nat.
+  Hypothesis lim_pos : 1 <= lim.
+
+Lemma steps_bin_l op l r : steps_ok_g lim l = false -> steps_ok_g lim (EBinary op l r) = false.
+Proof. intros H. cbn [steps_ok_g]. now rewrite H. Qed.
+Lemma steps_bin_r op l r : steps_ok_g lim r = false -> steps_ok_g lim (EBinary op l r) = false.
+Proof. intros H. cbn [steps_ok_g]. rewrite H. apply andb_false_r. Qed.
 
 Lemma R_as_loop_steps f : forall acc ts e rest,
-  R.as_loop f acc ts = Some (e, rest) -> steps_ok acc = false -> steps_ok e = false.
+  R.as_loop f acc ts = Some (e, rest) -> steps_ok_g lim acc = false -> steps_ok_g lim e = false.
 Proof.
   induction f as [|f IH]; intros acc ts e rest H Hs; [discriminate|].
   rewrite as_loop_S in H. destruct (isAs (hdk ts)).
@@ -440,7 +640,7 @@ Proof.
 Qed.
 
 Lemma R_mul_loop_steps f : forall nb acc ts e rest,
-  R.mul_loop f nb acc ts = Some (e, rest) -> steps_ok acc = false -> steps_ok e = false.
+  R.mul_loop f nb acc ts = Some (e, rest) -> steps_ok_g lim acc = false -> steps_ok_g lim e = false.
 Proof.
   induction f as [|f IH]; intros nb acc ts e rest H Hs; [discriminate|].
   rewrite mul_loop_S in H. destruct (mulop_of (hdk ts)) as [op|].
@@ -450,7 +650,7 @@ Proof.
 Qed.
 
 Lemma R_bit_loop_steps f : forall nb op acc ts e rest,
-  R.bit_loop f nb op acc ts = Some (e, rest) -> steps_ok acc = false -> steps_ok e = false.
+  R.bit_loop f nb op acc ts = Some (e, rest) -> steps_ok_g lim acc = false -> steps_ok_g lim e = false.
 Proof.
   induction f as [|f IH]; intros nb op acc ts e rest H Hs; [discriminate|].
   rewrite bit_loop_S in H.
@@ -461,7 +661,7 @@ Proof.
 Qed.
 
 Lemma R_add_loop_steps f : forall nb acc ts e rest,
-  R.add_loop f nb acc ts = Some (e, rest) -> steps_ok acc = false -> steps_ok e = false.
+  R.add_loop f nb acc ts = Some (e, rest) -> steps_ok_g lim acc = false -> steps_ok_g lim e = false.
 Proof.
   induction f as [|f IH]; intros nb acc ts e rest H Hs; [discriminate|].
   rewrite add_loop_S in H. destruct (bitop_of (hdk ts)) as [op|].
@@ -498,55 +698,55 @@ Definition relM (ms' ms : list (name * expr)) : Prop :=
 Definition relS (ss' ss : list step) : Prop :=
   map fold_step ss' = ss /\ forallb adm_step ss' = true.
 
-Definition okL (es : list expr) : bool := forallb steps_ok es.
-Definition okM (ms : list (name * expr)) : bool := forallb (fun me => steps_ok (snd me)) ms.
+Definition okL (es : list expr) : bool := forallb (steps_ok_g lim) es.
+Definition okM (ms : list (name * expr)) : bool := forallb (fun me => steps_ok_g lim (snd me)) ms.
 Definition okS (k : nat) (ss : list step) : bool :=
-  (k + length ss <? MAX_REFERENCE_DEPTH)%nat && forallb steps_ok_step ss.
+  (k + length ss <? lim)%nat && forallb (steps_ok_step_g lim) ss.
 
-Notation AccE := (Acc steps_ok relE).
-Notation AccR := (Acc steps_ok_ref relR).
+Notation AccE := (Acc (steps_ok_g lim) relE).
+Notation AccR := (Acc (steps_ok_ref_g lim) relR).
 Notation AccL := (Acc okL relL).
 Notation AccM := (Acc okM relM).
 Notation AccS k := (Acc (okS k) relS).
 
 Record PA (f : nat) : Prop := {
   pa_add : forall ts e rest, R.parse_addition f false ts = Some (e, rest) ->
-           AccE (D.parse_addition f ts) e rest;
-  pa_addl : forall acc' ts e rest, admissible acc' = true -> steps_ok (foldE acc') = true ->
+           AccE (D.parse_addition_g lim f ts) e rest;
+  pa_addl : forall acc' ts e rest, admissible acc' = true -> steps_ok_g lim (foldE acc') = true ->
            R.add_loop f false (foldE acc') ts = Some (e, rest) ->
-           AccE (D.add_loop f acc' ts) e rest;
+           AccE (D.add_loop_g lim f acc' ts) e rest;
   pa_bit : forall op acc' ts e rest, is_bitop op = true ->
-           admissible acc' = true -> left_ok op acc' = true -> steps_ok (foldE acc') = true ->
+           admissible acc' = true -> left_ok op acc' = true -> steps_ok_g lim (foldE acc') = true ->
            R.bit_loop f false op (foldE acc') ts = Some (e, rest) ->
-           AccE (D.bit_loop f op acc' ts) e rest;
+           AccE (D.bit_loop_g lim f op acc' ts) e rest;
   pa_mul : forall ts e rest, R.parse_multiplication f false ts = Some (e, rest) ->
-           AccE (D.parse_multiplication f ts) e rest;
-  pa_mull : forall acc' ts e rest, admissible acc' = true -> steps_ok (foldE acc') = true ->
+           AccE (D.parse_multiplication_g lim f ts) e rest;
+  pa_mull : forall acc' ts e rest, admissible acc' = true -> steps_ok_g lim (foldE acc') = true ->
            R.mul_loop f false (foldE acc') ts = Some (e, rest) ->
-           AccE (D.mul_loop f acc' ts) e rest;
+           AccE (D.mul_loop_g lim f acc' ts) e rest;
   pa_sing : forall ts e rest, R.parse_singular f false ts = Some (e, rest) ->
-           AccE (D.parse_singular f ts) e rest;
-  pa_asl : forall acc' ts e rest, admissible acc' = true -> steps_ok (foldE acc') = true ->
+           AccE (D.parse_singular_g lim f ts) e rest;
+  pa_asl : forall acc' ts e rest, admissible acc' = true -> steps_ok_g lim (foldE acc') = true ->
            R.as_loop f (foldE acc') ts = Some (e, rest) ->
            AccE (D.as_loop f acc' ts) e rest;
   pa_un : forall ts e rest, R.parse_unary f false ts = Some (e, rest) ->
-           AccE (D.parse_unary f ts) e rest;
+           AccE (D.parse_unary_g lim f ts) e rest;
   pa_prim : forall ts e rest, R.parse_primary f false ts = Some (e, rest) ->
-           AccE (D.parse_primary f ts) e rest;
+           AccE (D.parse_primary_g lim f ts) e rest;
   pa_list : forall br ts es ts2 ts3, R.expr_list f false br ts = Some (es, ts2) ->
            expect (is_close br) ts2 = Some ts3 ->
-           AccL (D.expr_list f br ts) es ts3;
+           AccL (D.expr_list_g lim f br ts) es ts3;
   pa_mem : forall ts ms ts2 ts3, R.members_loop f false ts = Some (ms, ts2) ->
            expect isBraceRight ts2 = Some ts3 ->
-           AccM (D.members_loop f ts) ms ts3;
+           AccM (D.members_loop_g lim f ts) ms ts3;
   pa_addr : forall ts d b steps rest,
            R.parse_reference f false ts = Some (Ref d b steps, rest) ->
            (MAX_ADDRESS_DEPTH <? d + 1)%N = false ->
-           AccR (D.parse_addressed f ts) (Ref (d + 1)%N b steps) rest;
+           AccR (D.parse_addressed_g lim f ts) (Ref (d + 1)%N b steps) rest;
   pa_ref : forall ts r rest, R.parse_reference f false ts = Some (r, rest) ->
-           AccR (D.parse_reference f ts) r rest;
+           AccR (D.parse_reference_g lim f ts) r rest;
   pa_steps : forall k ts ss rest, R.steps_loop f false k ts = Some (ss, rest) ->
-           AccS k (D.steps_loop f k ts) ss rest
+           AccS k (D.steps_loop_g lim f k ts) ss rest
 }.
 
 Ltac accE H :=
@@ -568,7 +768,7 @@ Ltac brw :=
   end.
 
 Ltac bsolve :=
-  cbn [steps_ok steps_ok_ref steps_ok_step forallb admissible adm_ref adm_step
+  cbn [steps_ok_g steps_ok_ref_g steps_ok_step_g forallb admissible adm_ref adm_step
        fold_negative_literals fold_ref fold_step map length snd fst okL okM fold_member];
   brw; rewrite ?andb_false_r, ?andb_true_r; try reflexivity.
 
@@ -576,31 +776,11 @@ Lemma PA_0 : PA 0.
 Proof. constructor; intros; discriminate. Qed.
 
 
-Lemma expect_tl p ts r : expect p ts = Some r -> r = tl ts.
-Proof. destruct ts as [|t ts']; cbn [expect]; [discriminate|].
-  destruct (p (kind t)); [|discriminate]. intros H; inversion H; reflexivity. Qed.
-
-Lemma amp_loop_count : forall ts d0, (d0 <= MAX_ADDRESS_DEPTH)%N ->
-  amp_loop d0 ts =
-    let '(n, r) := count_amps ts in
-    if (MAX_ADDRESS_DEPTH <? d0 + n)%N then None else Some ((d0 + n)%N, r).
-Proof.
-  induction ts as [|t ts IH]; intros d0 Hd; cbn [amp_loop count_amps].
-  - rewrite N.add_0_r. destruct (N.ltb_spec MAX_ADDRESS_DEPTH d0); [lia|reflexivity].
-  - destruct (isAmpersand (kind t)).
-    + destruct (N.ltb_spec MAX_ADDRESS_DEPTH (d0 + 1)) as [Hlt|Hge].
-      * destruct (count_amps ts) as [n r].
-        destruct (N.ltb_spec MAX_ADDRESS_DEPTH (d0 + N.succ n)); [reflexivity|lia].
-      * rewrite IH by lia. destruct (count_amps ts) as [n r].
-        replace (d0 + 1 + n)%N with (d0 + N.succ n)%N by lia. reflexivity.
-    + rewrite N.add_0_r. destruct (N.ltb_spec MAX_ADDRESS_DEPTH d0); [lia|reflexivity].
-Qed.
-
-Lemma okS_cons k s ss : okS k (s :: ss) = steps_ok_step s && okS (S k) ss.
+Lemma okS_cons k s ss : okS k (s :: ss) = steps_ok_step_g lim s && okS (S k) ss.
 Proof.
   unfold okS. cbn [length forallb]. rewrite Nat.add_succ_r. cbn [plus].
-  destruct (S (k + length ss) <? MAX_REFERENCE_DEPTH)%nat, (steps_ok_step s),
-    (forallb steps_ok_step ss); reflexivity.
+  destruct (S (k + length ss) <? lim)%nat, (steps_ok_step_g lim s),
+    (forallb (steps_ok_step_g lim) ss); reflexivity.
 Qed.
 
 Section PA_step.
@@ -608,9 +788,9 @@ Section PA_step.
   Hypothesis IH : PA f.
 
   Lemma pa_add_S : forall ts e rest, R.parse_addition (S f) false ts = Some (e, rest) ->
-    AccE (D.parse_addition (S f) ts) e rest.
+    AccE (D.parse_addition_g lim (S f) ts) e rest.
   Proof.
-    intros ts e rest H. rewrite parse_addition_S in H. rewrite D_parse_addition_S.
+    intros ts e rest H. rewrite parse_addition_S in H. rewrite (Dg_parse_addition_S lim).
     destruct (R.parse_multiplication f false ts) as [[m ts1]|] eqn:Hm; [|discriminate].
     apply (pa_mul f IH) in Hm. accE Hm.
     - apply (pa_addl f IH); assumption.
@@ -618,11 +798,11 @@ Section PA_step.
   Qed.
 
   Lemma pa_addl_S : forall acc' ts e rest, admissible acc' = true ->
-    steps_ok (foldE acc') = true ->
+    steps_ok_g lim (foldE acc') = true ->
     R.add_loop (S f) false (foldE acc') ts = Some (e, rest) ->
-    AccE (D.add_loop (S f) acc' ts) e rest.
+    AccE (D.add_loop_g lim (S f) acc' ts) e rest.
   Proof.
-    intros acc' ts e rest Ha Hs H. rewrite add_loop_S in H. rewrite D_add_loop_S.
+    intros acc' ts e rest Ha Hs H. rewrite add_loop_S in H. rewrite (Dg_add_loop_S lim).
     destruct (bitop_of (hdk ts)) as [op|] eqn:Hb.
     - destruct (is_binary (foldE acc')) eqn:Hbin; [discriminate|].
       rewrite is_binary_fold in Hbin.
@@ -650,11 +830,11 @@ Section PA_step.
   Qed.
 
   Lemma pa_bit_S : forall op acc' ts e rest, is_bitop op = true ->
-    admissible acc' = true -> left_ok op acc' = true -> steps_ok (foldE acc') = true ->
+    admissible acc' = true -> left_ok op acc' = true -> steps_ok_g lim (foldE acc') = true ->
     R.bit_loop (S f) false op (foldE acc') ts = Some (e, rest) ->
-    AccE (D.bit_loop (S f) op acc' ts) e rest.
+    AccE (D.bit_loop_g lim (S f) op acc' ts) e rest.
   Proof.
-    intros op acc' ts e rest Hop Ha Hl Hs H. rewrite bit_loop_S in H. rewrite D_bit_loop_S.
+    intros op acc' ts e rest Hop Ha Hl Hs H. rewrite bit_loop_S in H. rewrite (Dg_bit_loop_S lim).
     destruct (R.parse_unary f false ts) as [[r ts1]|] eqn:Hu; [|discriminate].
     apply (pa_un f IH) in Hu. accE Hu.
     - destruct (same_bitop op (hdk ts1)).
@@ -667,9 +847,9 @@ Section PA_step.
   Qed.
 
   Lemma pa_mul_S : forall ts e rest, R.parse_multiplication (S f) false ts = Some (e, rest) ->
-    AccE (D.parse_multiplication (S f) ts) e rest.
+    AccE (D.parse_multiplication_g lim (S f) ts) e rest.
   Proof.
-    intros ts e rest H. rewrite parse_multiplication_S in H. rewrite D_parse_multiplication_S.
+    intros ts e rest H. rewrite parse_multiplication_S in H. rewrite (Dg_parse_multiplication_S lim).
     destruct (R.parse_singular f false ts) as [[m ts1]|] eqn:Hm; [|discriminate].
     apply (pa_sing f IH) in Hm. accE Hm.
     - apply (pa_mull f IH); assumption.
@@ -677,11 +857,11 @@ Section PA_step.
   Qed.
 
   Lemma pa_mull_S : forall acc' ts e rest, admissible acc' = true ->
-    steps_ok (foldE acc') = true ->
+    steps_ok_g lim (foldE acc') = true ->
     R.mul_loop (S f) false (foldE acc') ts = Some (e, rest) ->
-    AccE (D.mul_loop (S f) acc' ts) e rest.
+    AccE (D.mul_loop_g lim (S f) acc' ts) e rest.
   Proof.
-    intros acc' ts e rest Ha Hs H. rewrite mul_loop_S in H. rewrite D_mul_loop_S.
+    intros acc' ts e rest Ha Hs H. rewrite mul_loop_S in H. rewrite (Dg_mul_loop_S lim).
     destruct (mulop_of (hdk ts)) as [op|] eqn:Hmo.
     - destruct (R.parse_singular f false (tl ts)) as [[r ts1]|] eqn:Hm; [|discriminate].
       apply (pa_sing f IH) in Hm. accE Hm.
@@ -692,9 +872,9 @@ Section PA_step.
   Qed.
 
   Lemma pa_sing_S : forall ts e rest, R.parse_singular (S f) false ts = Some (e, rest) ->
-    AccE (D.parse_singular (S f) ts) e rest.
+    AccE (D.parse_singular_g lim (S f) ts) e rest.
   Proof.
-    intros ts e rest H. rewrite parse_singular_S in H. rewrite D_parse_singular_S.
+    intros ts e rest H. rewrite parse_singular_S in H. rewrite (Dg_parse_singular_S lim).
     destruct (isCast (hdk ts)).
     - destruct (R.parse_unary f false (tl ts)) as [[u ts1]|] eqn:Hu; [|discriminate].
       apply (pa_un f IH) in Hu. accE Hu.
@@ -707,7 +887,7 @@ Section PA_step.
   Qed.
 
   Lemma pa_asl_S : forall acc' ts e rest, admissible acc' = true ->
-    steps_ok (foldE acc') = true ->
+    steps_ok_g lim (foldE acc') = true ->
     R.as_loop (S f) (foldE acc') ts = Some (e, rest) ->
     AccE (D.as_loop (S f) acc' ts) e rest.
   Proof.
@@ -720,9 +900,9 @@ Section PA_step.
   Qed.
 
   Lemma pa_un_S : forall ts e rest, R.parse_unary (S f) false ts = Some (e, rest) ->
-    AccE (D.parse_unary (S f) ts) e rest.
+    AccE (D.parse_unary_g lim (S f) ts) e rest.
   Proof.
-    intros ts e rest H. rewrite parse_unary_S in H. rewrite D_parse_unary_S.
+    intros ts e rest H. rewrite parse_unary_S in H. rewrite (Dg_parse_unary_S lim).
     destruct (hdk ts) eqn:Hk; try (apply (pa_prim f IH); exact H).
     - (* KPipe *)
       destruct (R.parse_reference f false (tl ts)) as [[r ts1]|] eqn:Hr; [|discriminate].
@@ -757,9 +937,9 @@ Section PA_step.
   Qed.
 
   Lemma pa_prim_S : forall ts e rest, R.parse_primary (S f) false ts = Some (e, rest) ->
-    AccE (D.parse_primary (S f) ts) e rest.
+    AccE (D.parse_primary_g lim (S f) ts) e rest.
   Proof.
-    intros ts e rest H. rewrite parse_primary_S in H. rewrite D_parse_primary_S.
+    intros ts e rest H. rewrite parse_primary_S in H. rewrite (Dg_parse_primary_S lim).
     destruct ts as [|t ts1]; [discriminate|].
     destruct (kind t) eqn:Hk; try discriminate H.
     - (* KParenLeft *)
@@ -824,19 +1004,19 @@ Section PA_step.
       + eapply Acc_ok; [exact Hs|reflexivity|split; [reflexivity|exact Ha]].
       + apply Acc_dead; [|reflexivity]. exact Hs.
     - destruct (literal_of t) as [e0|] eqn:Hl; [|discriminate]. inversion H; subst.
-      destruct (literal_facts _ _ Hl) as (H1 & H2 & H3).
+      destruct (literal_facts lim _ _ Hl) as (H1 & H2 & H3).
       eapply Acc_ok; [exact H1|reflexivity|split; assumption].
     - destruct (literal_of t) as [e0|] eqn:Hl; [|discriminate]. inversion H; subst.
-      destruct (literal_facts _ _ Hl) as (H1 & H2 & H3).
+      destruct (literal_facts lim _ _ Hl) as (H1 & H2 & H3).
       eapply Acc_ok; [exact H1|reflexivity|split; assumption].
     - destruct (literal_of t) as [e0|] eqn:Hl; [|discriminate]. inversion H; subst.
-      destruct (literal_facts _ _ Hl) as (H1 & H2 & H3).
+      destruct (literal_facts lim _ _ Hl) as (H1 & H2 & H3).
       eapply Acc_ok; [exact H1|reflexivity|split; assumption].
     - destruct (literal_of t) as [e0|] eqn:Hl; [|discriminate]. inversion H; subst.
-      destruct (literal_facts _ _ Hl) as (H1 & H2 & H3).
+      destruct (literal_facts lim _ _ Hl) as (H1 & H2 & H3).
       eapply Acc_ok; [exact H1|reflexivity|split; assumption].
     - destruct (literal_of t) as [e0|] eqn:Hl; [|discriminate]. inversion H; subst.
-      destruct (literal_facts _ _ Hl) as (H1 & H2 & H3).
+      destruct (literal_facts lim _ _ Hl) as (H1 & H2 & H3).
       eapply Acc_ok; [exact H1|reflexivity|split; assumption].
     - (* KStringLiteral *)
       destruct (take_strings ts1) as [bs ts2]. inversion H; subst.
@@ -846,9 +1026,9 @@ Section PA_step.
   Lemma pa_list_S : forall br ts es ts2 ts3,
     R.expr_list (S f) false br ts = Some (es, ts2) ->
     expect (is_close br) ts2 = Some ts3 ->
-    AccL (D.expr_list (S f) br ts) es ts3.
+    AccL (D.expr_list_g lim (S f) br ts) es ts3.
   Proof.
-    intros br ts es ts2 ts3 H Hc. rewrite expr_list_S in H. rewrite D_expr_list_S.
+    intros br ts es ts2 ts3 H Hc. rewrite expr_list_S in H. rewrite (Dg_expr_list_S lim).
     destruct (is_close br (hdk ts)) eqn:Hcl.
     - inversion H; subst. apply expect_tl in Hc. subst ts3.
       eapply Acc_ok; [reflexivity|reflexivity|split; reflexivity].
@@ -869,7 +1049,7 @@ Section PA_step.
   Qed.
 
   Lemma pa_mem_tail : forall n x' ts2 ms tsA ts3,
-    admissible x' = true -> steps_ok (foldE x') = true ->
+    admissible x' = true -> steps_ok_g lim (foldE x') = true ->
     (if isComma (hdk ts2)
      then match R.members_loop f false (tl ts2) with
           | Some (ms0, tsB) => Some ((n, foldE x') :: ms0, tsB)
@@ -878,7 +1058,7 @@ Section PA_step.
      else Some ([(n, foldE x')], ts2)) = Some (ms, tsA) ->
     expect isBraceRight tsA = Some ts3 ->
     AccM (if isComma (hdk ts2)
-          then bind (D.members_loop f (tl ts2)) (fun '(ms0, tsB) => Ok ((n, x') :: ms0, tsB))
+          then bind (D.members_loop_g lim f (tl ts2)) (fun '(ms0, tsB) => Ok ((n, x') :: ms0, tsB))
           else bind (expect_r isBraceRight ts2) (fun tsB => Ok ([(n, x')], tsB))) ms ts3.
   Proof.
     intros n x' ts2 ms tsA ts3 Ha Hs H Hc. destruct (isComma (hdk ts2)).
@@ -894,9 +1074,9 @@ Section PA_step.
   Lemma pa_mem_S : forall ts ms ts2 ts3,
     R.members_loop (S f) false ts = Some (ms, ts2) ->
     expect isBraceRight ts2 = Some ts3 ->
-    AccM (D.members_loop (S f) ts) ms ts3.
+    AccM (D.members_loop_g lim (S f) ts) ms ts3.
   Proof.
-    intros ts ms ts2 ts3 H Hc. rewrite members_loop_S in H. rewrite D_members_loop_S.
+    intros ts ms ts2 ts3 H Hc. rewrite members_loop_S in H. rewrite (Dg_members_loop_S lim).
     destruct (isBraceRight (hdk ts)) eqn:Hcl.
     - inversion H; subst. apply expect_tl in Hc. subst ts3.
       eapply Acc_ok; [reflexivity|reflexivity|split; reflexivity].
@@ -912,22 +1092,21 @@ Section PA_step.
           -- inversion H; subst; clear H. bsolve.
       + cbn [bind].
         apply (pa_mem_tail n (EDeref (Ref 0%N n [])) ts1 ms ts2 ts3); auto.
+        cbn. destruct lim; [lia|reflexivity].
   Qed.
 
   Lemma pa_steps_S : forall k ts ss rest,
     R.steps_loop (S f) false k ts = Some (ss, rest) ->
-    AccS k (D.steps_loop (S f) k ts) ss rest.
+    AccS k (D.steps_loop_g lim (S f) k ts) ss rest.
   Proof.
-    intros k ts ss rest H. rewrite steps_loop_S in H. rewrite D_steps_loop_S.
-    destruct (Nat.leb_spec MAX_REFERENCE_DEPTH k) as [Hk|Hk].
+    intros k ts ss rest H. rewrite steps_loop_S in H. rewrite (Dg_steps_loop_S lim).
+    destruct (Nat.leb_spec lim k) as [Hk|Hk].
     - apply Acc_dead; [|reflexivity]. unfold okS.
-      destruct (Nat.ltb_spec (k + length ss) MAX_REFERENCE_DEPTH); [lia|reflexivity].
-    - assert (Hk' : (MAX_REFERENCE_DEPTH <? S k)%nat = false).
-      { destruct (Nat.ltb_spec MAX_REFERENCE_DEPTH (S k)); [lia|reflexivity]. }
-      rewrite Hk' in H.
-      destruct (isBracketLeft (hdk ts)).
+      destruct (Nat.ltb_spec (k + length ss) lim); [lia|reflexivity].
+    - destruct (isBracketLeft (hdk ts)).
       + destruct (R.parse_addition f false (tl ts)) as [[e ts1]|] eqn:He; [|discriminate].
         destruct (expect isBracketRight ts1) as [ts2|] eqn:Hp; [|discriminate].
+        destruct (MAX_REFERENCE_DEPTH <? S k)%nat; [discriminate|].
         destruct (R.steps_loop f false (S k) ts2) as [[ss0 ts3]|] eqn:Hst; [|discriminate].
         inversion H; subst; clear H.
         apply (pa_add f IH) in He. accE He.
@@ -938,6 +1117,7 @@ Section PA_step.
         * apply Acc_dead; [|reflexivity]. rewrite okS_cons. bsolve.
       + destruct (isDot (hdk ts)).
         * destruct (expect_id (tl ts)) as [[m ts1]|] eqn:Hid; [|discriminate].
+          destruct (MAX_REFERENCE_DEPTH <? S k)%nat; [discriminate|].
           destruct (R.steps_loop f false (S k) ts1) as [[ss0 ts3]|] eqn:Hst; [|discriminate].
           inversion H; subst; clear H.
           unfold expect_id_r. rewrite Hid. cbn [of_opt bind].
@@ -947,13 +1127,13 @@ Section PA_step.
         * inversion H; subst; clear H.
           eapply Acc_ok; [|reflexivity|split; reflexivity].
           unfold okS. cbn [length forallb]. rewrite Nat.add_0_r, andb_true_r.
-          destruct (Nat.ltb_spec k MAX_REFERENCE_DEPTH); [reflexivity|lia].
+          destruct (Nat.ltb_spec k lim); [reflexivity|lia].
   Qed.
 
   Lemma pa_ref_S : forall ts r rest, R.parse_reference (S f) false ts = Some (r, rest) ->
-    AccR (D.parse_reference (S f) ts) r rest.
+    AccR (D.parse_reference_g lim (S f) ts) r rest.
   Proof.
-    intros ts r rest H. rewrite parse_reference_S in H. rewrite D_parse_reference_S.
+    intros ts r rest H. rewrite parse_reference_S in H. rewrite (Dg_parse_reference_S lim).
     rewrite amp_loop_count by (unfold MAX_ADDRESS_DEPTH; lia).
     destruct (count_amps ts) as [n ts1] eqn:Hc. rewrite N.add_0_l.
     destruct (MAX_ADDRESS_DEPTH <? n)%N eqn:Hn; [discriminate|].
@@ -969,9 +1149,9 @@ Section PA_step.
   Lemma pa_addr_S : forall ts d b steps rest,
     R.parse_reference (S f) false ts = Some (Ref d b steps, rest) ->
     (MAX_ADDRESS_DEPTH <? d + 1)%N = false ->
-    AccR (D.parse_addressed (S f) ts) (Ref (d + 1)%N b steps) rest.
+    AccR (D.parse_addressed_g lim (S f) ts) (Ref (d + 1)%N b steps) rest.
   Proof.
-    intros ts d b steps rest H Hd. rewrite parse_reference_S in H. rewrite D_parse_addressed_S.
+    intros ts d b steps rest H Hd. rewrite parse_reference_S in H. rewrite (Dg_parse_addressed_S lim).
     rewrite amp_loop_count by (unfold MAX_ADDRESS_DEPTH; lia).
     destruct (count_amps ts) as [n ts1] eqn:Hc.
     destruct (MAX_ADDRESS_DEPTH <? n)%N eqn:Hn; [discriminate|].
@@ -1006,26 +1186,347 @@ Proof.
   - apply pa_steps_S, IH.
 Qed.
 
-(* MAIN THEOREM, exact form, at equal fuel: whenever the reference parser accepts,
-   the second generation either builds a tree that folds to the reference tree (and
-   is admissible), or - exactly when the reference tree contains a reference with
-   127 steps - fails with MaximumParseDepthExceeded. *)
+End PA_generic.
+
+(* the tactics of the section, again *)
+Ltac accE H :=
+  unfold Acc in H;
+  match type of H with
+  | (if ?c then _ else _) =>
+      let Hs := fresh "Hs" in
+      destruct c eqn:Hs;
+      [ let x := fresh "x'" in let Hd := fresh "Hd" in let Hf := fresh "Hf" in
+        let Ha := fresh "Ha" in
+        destruct H as (x & Hd & Hf & Ha); rewrite Hd; cbn [bind]; try subst
+      | rewrite H; cbn [bind] ]
+  end.
+
+Ltac brw :=
+  repeat match goal with
+  | H : _ = true |- _ => progress rewrite H
+  | H : _ = false |- _ => progress rewrite H
+  end.
+
+Ltac bsolve :=
+  cbn [steps_ok_g steps_ok_ref_g steps_ok_step_g forallb admissible adm_ref adm_step
+       fold_negative_literals fold_ref fold_step map length snd fst okL okM fold_member];
+  brw; rewrite ?andb_false_r, ?andb_true_r; try reflexivity.
+
+
+(* ------------------------------------------------------------------------- *)
+(* Every tree of the reference parser has at most MAX_REFERENCE_DEPTH steps   *)
+(* per reference (127 accepted, 128 rejected)                                 *)
+(* ------------------------------------------------------------------------- *)
+
+Notation sb := (steps_ok_g REPAIRED_ITERATIONS).
+Notation sb_ref := (steps_ok_ref_g REPAIRED_ITERATIONS).
+Notation sb_step := (steps_ok_step_g REPAIRED_ITERATIONS).
+
+Lemma R_as_loop_sb f : forall acc ts e rest,
+  R.as_loop f acc ts = Some (e, rest) -> sb acc = true -> sb e = true.
+Proof.
+  induction f as [|f IH]; intros acc ts e rest H Hs; [discriminate|].
+  rewrite as_loop_S in H. destruct (isAs (hdk ts)).
+  - destruct (R.parse_wellformed_type f (tl ts)) as [[t ts1]|]; [|discriminate].
+    eapply IH; [exact H|exact Hs].
+  - inversion H; subst; assumption.
+Qed.
+
+Record RB (f : nat) : Prop := {
+  rb_add : forall nb ts e rest, R.parse_addition f nb ts = Some (e, rest) -> sb e = true;
+  rb_addl : forall nb acc ts e rest, R.add_loop f nb acc ts = Some (e, rest) ->
+            sb acc = true -> sb e = true;
+  rb_bit : forall nb op acc ts e rest, R.bit_loop f nb op acc ts = Some (e, rest) ->
+            sb acc = true -> sb e = true;
+  rb_mul : forall nb ts e rest, R.parse_multiplication f nb ts = Some (e, rest) -> sb e = true;
+  rb_mull : forall nb acc ts e rest, R.mul_loop f nb acc ts = Some (e, rest) ->
+            sb acc = true -> sb e = true;
+  rb_sing : forall nb ts e rest, R.parse_singular f nb ts = Some (e, rest) -> sb e = true;
+  rb_un : forall nb ts e rest, R.parse_unary f nb ts = Some (e, rest) -> sb e = true;
+  rb_prim : forall nb ts e rest, R.parse_primary f nb ts = Some (e, rest) -> sb e = true;
+  rb_list : forall nb br ts es rest, R.expr_list f nb br ts = Some (es, rest) ->
+            forallb sb es = true;
+  rb_mem : forall nb ts ms rest, R.members_loop f nb ts = Some (ms, rest) ->
+            forallb (fun me => sb (snd me)) ms = true;
+  rb_ref : forall nb ts r rest, R.parse_reference f nb ts = Some (r, rest) -> sb_ref r = true;
+  rb_steps : forall nb k ts ss rest, R.steps_loop f nb k ts = Some (ss, rest) ->
+            k <= MAX_REFERENCE_DEPTH -> okS REPAIRED_ITERATIONS k ss = true
+}.
+
+Lemma RB_0 : RB 0.
+Proof. constructor; intros; discriminate. Qed.
+
+Section RB_step.
+  Variable f : nat.
+  Hypothesis IH : RB f.
+
+  Lemma rb_add_S : forall nb ts e rest,
+    R.parse_addition (S f) nb ts = Some (e, rest) -> sb e = true.
+  Proof.
+    intros nb ts e rest H. rewrite parse_addition_S in H.
+    destruct (R.parse_multiplication f nb ts) as [[m ts1]|] eqn:Hm; [|discriminate].
+    eapply (rb_addl f IH); [exact H|]. eapply (rb_mul f IH); exact Hm.
+  Qed.
+
+  Lemma rb_bit_S : forall nb op acc ts e rest,
+    R.bit_loop (S f) nb op acc ts = Some (e, rest) -> sb acc = true -> sb e = true.
+  Proof.
+    intros nb op acc ts e rest H Ha. rewrite bit_loop_S in H.
+    destruct (R.parse_unary f nb ts) as [[r ts1]|] eqn:Hu; [|discriminate].
+    apply (rb_un f IH) in Hu. destruct (same_bitop op (hdk ts1)).
+    - eapply (rb_bit f IH); [exact H|]. bsolve.
+    - inversion H; subst. bsolve.
+  Qed.
+
+  Lemma rb_addl_S : forall nb acc ts e rest,
+    R.add_loop (S f) nb acc ts = Some (e, rest) -> sb acc = true -> sb e = true.
+  Proof.
+    intros nb acc ts e rest H Ha. rewrite add_loop_S in H.
+    destruct (bitop_of (hdk ts)) as [op|].
+    - destruct (is_binary acc); [discriminate|]. eapply (rb_bit f IH); eauto.
+    - destruct (shiftop_of (hdk ts)) as [op|].
+      + destruct (is_binary acc); [discriminate|].
+        destruct (R.parse_unary f nb (tl ts)) as [[r ts1]|] eqn:Hu; [|discriminate].
+        inversion H; subst. apply (rb_un f IH) in Hu. bsolve.
+      + destruct (addop_of (hdk ts)) as [op|].
+        * destruct (R.parse_multiplication f nb (tl ts)) as [[r ts1]|] eqn:Hm; [|discriminate].
+          apply (rb_mul f IH) in Hm. eapply (rb_addl f IH); [exact H|]. bsolve.
+        * inversion H; subst; assumption.
+  Qed.
+
+  Lemma rb_mul_S : forall nb ts e rest,
+    R.parse_multiplication (S f) nb ts = Some (e, rest) -> sb e = true.
+  Proof.
+    intros nb ts e rest H. rewrite parse_multiplication_S in H.
+    destruct (R.parse_singular f nb ts) as [[m ts1]|] eqn:Hm; [|discriminate].
+    eapply (rb_mull f IH); [exact H|]. eapply (rb_sing f IH); exact Hm.
+  Qed.
+
+  Lemma rb_mull_S : forall nb acc ts e rest,
+    R.mul_loop (S f) nb acc ts = Some (e, rest) -> sb acc = true -> sb e = true.
+  Proof.
+    intros nb acc ts e rest H Ha. rewrite mul_loop_S in H.
+    destruct (mulop_of (hdk ts)) as [op|].
+    - destruct (R.parse_singular f nb (tl ts)) as [[r ts1]|] eqn:Hm; [|discriminate].
+      apply (rb_sing f IH) in Hm. eapply (rb_mull f IH); [exact H|]. bsolve.
+    - inversion H; subst; assumption.
+  Qed.
+
+  Lemma rb_sing_S : forall nb ts e rest,
+    R.parse_singular (S f) nb ts = Some (e, rest) -> sb e = true.
+  Proof.
+    intros nb ts e rest H. rewrite parse_singular_S in H.
+    destruct (isCast (hdk ts)).
+    - destruct (R.parse_unary f nb (tl ts)) as [[u ts1]|] eqn:Hu; [|discriminate].
+      apply (rb_un f IH) in Hu. eapply R_as_loop_sb; [exact H|exact Hu].
+    - destruct (R.parse_unary f nb ts) as [[u ts1]|] eqn:Hu; [|discriminate].
+      apply (rb_un f IH) in Hu. eapply R_as_loop_sb; [exact H|exact Hu].
+  Qed.
+
+  Lemma rb_un_S : forall nb ts e rest,
+    R.parse_unary (S f) nb ts = Some (e, rest) -> sb e = true.
+  Proof.
+    intros nb ts e rest H. rewrite parse_unary_S in H.
+    destruct (hdk ts); try (eapply (rb_prim f IH); exact H).
+    - destruct (R.parse_reference f nb (tl ts)) as [[r ts1]|] eqn:Hr; [|discriminate].
+      destruct (expect isPipe ts1); [|discriminate]. inversion H; subst.
+      apply (rb_ref f IH) in Hr; exact Hr.
+    - destruct (R.parse_primary f nb (tl ts)) as [[p ts1]|] eqn:Hp; [|discriminate].
+      inversion H; subst. apply (rb_prim f IH) in Hp; exact Hp.
+    - destruct (R.parse_primary f nb (tl ts)) as [[p ts1]|] eqn:Hp; [|discriminate].
+      rewrite R_minus_is_fold_neg in H. inversion H; subst.
+      rewrite steps_ok_fold_neg. apply (rb_prim f IH) in Hp; exact Hp.
+    - destruct (R.parse_wellformed_type f (tl ts)) as [[t ts1]|]; [|discriminate].
+      destruct (expect isPipe ts1); [|discriminate]. inversion H; subst. reflexivity.
+  Qed.
+
+  Lemma rb_prim_S : forall nb ts e rest,
+    R.parse_primary (S f) nb ts = Some (e, rest) -> sb e = true.
+  Proof.
+    intros nb ts e rest H. rewrite parse_primary_S in H.
+    destruct ts as [|t ts1]; [discriminate|].
+    destruct (kind t); try discriminate H.
+    - destruct (R.parse_addition f nb ts1) as [[e0 ts2]|] eqn:He; [|discriminate].
+      destruct (expect isParenRight ts2); [|discriminate]. inversion H; subst.
+      apply (rb_add f IH) in He; exact He.
+    - destruct (R.expr_list f nb true ts1) as [[es ts2]|] eqn:Hl; [|discriminate].
+      destruct (expect isBracketRight ts2); [|discriminate]. inversion H; subst.
+      apply (rb_list f IH) in Hl; exact Hl.
+    - destruct (R.parse_reference f nb ts1) as [[[d b steps] ts2]|] eqn:Hr; [|discriminate].
+      destruct (MAX_ADDRESS_DEPTH <? d + 1)%N; [discriminate|].
+      apply (rb_ref f IH) in Hr. cbv zeta in H. destruct (isDots (hdk ts2)).
+      + destruct (R.parse_addition f nb (tl ts2)) as [[off ts3]|] eqn:Ho; [|discriminate].
+        inversion H; subst. apply (rb_add f IH) in Ho.
+        cbn [steps_ok_g steps_ok_ref_g] in *. rewrite Hr, Ho. reflexivity.
+      + inversion H; subst. exact Hr.
+    - destruct (isParenLeft (hdk ts1)).
+      + destruct (R.expr_list f nb false (tl ts1)) as [[args ts2]|] eqn:Hl; [|discriminate].
+        destruct (expect isParenRight ts2); [|discriminate]. inversion H; subst.
+        apply (rb_list f IH) in Hl; exact Hl.
+      + destruct (isBraceLeft (hdk ts1) && negb nb).
+        * destruct (R.members_loop f nb (tl ts1)) as [[ms ts2]|] eqn:Hm; [|discriminate].
+          destruct (expect isBraceRight ts2); [|discriminate]. inversion H; subst.
+          apply (rb_mem f IH) in Hm; exact Hm.
+        * destruct (R.steps_loop f nb 0 ts1) as [[ss ts2]|] eqn:Hst; [|discriminate].
+          inversion H; subst. apply (rb_steps f IH) in Hst; [exact Hst|lia].
+    - destruct (expect isParenLeft ts1) as [ts2|]; [|discriminate].
+      destruct (R.expr_list f nb false ts2) as [[args ts3]|] eqn:Hl; [|discriminate].
+      destruct (expect isParenRight ts3); [|discriminate]. inversion H; subst.
+      apply (rb_list f IH) in Hl; exact Hl.
+    - destruct (literal_of t) eqn:Hl; [|discriminate]. inversion H; subst.
+      apply (literal_facts _ _ _ Hl).
+    - destruct (literal_of t) eqn:Hl; [|discriminate]. inversion H; subst.
+      apply (literal_facts _ _ _ Hl).
+    - destruct (literal_of t) eqn:Hl; [|discriminate]. inversion H; subst.
+      apply (literal_facts _ _ _ Hl).
+    - destruct (literal_of t) eqn:Hl; [|discriminate]. inversion H; subst.
+      apply (literal_facts _ _ _ Hl).
+    - destruct (literal_of t) eqn:Hl; [|discriminate]. inversion H; subst.
+      apply (literal_facts _ _ _ Hl).
+    - destruct (take_strings ts1). inversion H; subst. reflexivity.
+  Qed.
+
+  Lemma rb_list_S : forall nb br ts es rest,
+    R.expr_list (S f) nb br ts = Some (es, rest) -> forallb sb es = true.
+  Proof.
+    intros nb br ts es rest H. rewrite expr_list_S in H.
+    destruct (is_close br (hdk ts)); [inversion H; subst; reflexivity|].
+    destruct (R.parse_addition f nb ts) as [[e ts1]|] eqn:He; [|discriminate].
+    apply (rb_add f IH) in He. destruct (isComma (hdk ts1)).
+    - destruct (R.expr_list f nb br (tl ts1)) as [[es0 ts2]|] eqn:Hl; [|discriminate].
+      inversion H; subst. apply (rb_list f IH) in Hl. bsolve.
+    - inversion H; subst. bsolve.
+  Qed.
+
+  Lemma rb_mem_tail : forall nb n e tsv ms rest, sb e = true ->
+    (if isComma (hdk tsv)
+     then match R.members_loop f nb (tl tsv) with
+          | Some (ms0, ts3) => Some ((n, e) :: ms0, ts3)
+          | None => None
+          end
+     else Some ([(n, e)], tsv)) = Some (ms, rest) ->
+    forallb (fun me => sb (snd me)) ms = true.
+  Proof.
+    intros nb n e tsv ms rest He H. destruct (isComma (hdk tsv)).
+    - destruct (R.members_loop f nb (tl tsv)) as [[ms0 ts3]|] eqn:Hm; [|discriminate].
+      inversion H; subst. apply (rb_mem f IH) in Hm. bsolve.
+    - inversion H; subst. bsolve.
+  Qed.
+
+  Lemma rb_mem_S : forall nb ts ms rest,
+    R.members_loop (S f) nb ts = Some (ms, rest) -> forallb (fun me => sb (snd me)) ms = true.
+  Proof.
+    intros nb ts ms rest H. rewrite members_loop_S in H.
+    destruct (isBraceRight (hdk ts)); [inversion H; subst; reflexivity|].
+    destruct (expect_id ts) as [[n ts1]|]; [|discriminate]. cbv zeta in H.
+    destruct (isColon (hdk ts1)).
+    - destruct (R.parse_addition f nb (tl ts1)) as [[e tsv]|] eqn:He; [|discriminate].
+      apply (rb_add f IH) in He. eapply rb_mem_tail; eauto.
+    - eapply rb_mem_tail; [|exact H]. reflexivity.
+  Qed.
+
+  Lemma rb_ref_S : forall nb ts r rest,
+    R.parse_reference (S f) nb ts = Some (r, rest) -> sb_ref r = true.
+  Proof.
+    intros nb ts r rest H. rewrite parse_reference_S in H.
+    destruct (count_amps ts) as [n ts1]. destruct (MAX_ADDRESS_DEPTH <? n)%N; [discriminate|].
+    destruct (expect_id ts1) as [[b ts2]|]; [|discriminate].
+    destruct (R.steps_loop f nb 0 ts2) as [[ss ts3]|] eqn:Hst; [|discriminate].
+    inversion H; subst. apply (rb_steps f IH) in Hst; [exact Hst|lia].
+  Qed.
+
+  Lemma rb_steps_S : forall nb k ts ss rest,
+    R.steps_loop (S f) nb k ts = Some (ss, rest) ->
+    k <= MAX_REFERENCE_DEPTH -> okS REPAIRED_ITERATIONS k ss = true.
+  Proof.
+    intros nb k ts ss rest H Hk. rewrite steps_loop_S in H.
+    destruct (isBracketLeft (hdk ts)).
+    - destruct (R.parse_addition f nb (tl ts)) as [[e ts1]|] eqn:He; [|discriminate].
+      destruct (expect isBracketRight ts1) as [ts2|]; [|discriminate].
+      destruct (Nat.ltb_spec MAX_REFERENCE_DEPTH (S k)) as [Hlt|Hge]; [discriminate|].
+      destruct (R.steps_loop f nb (S k) ts2) as [[ss0 ts3]|] eqn:Hst; [|discriminate].
+      inversion H; subst. apply (rb_add f IH) in He.
+      apply (rb_steps f IH) in Hst; [|lia]. rewrite okS_cons. bsolve.
+    - destruct (isDot (hdk ts)).
+      + destruct (expect_id (tl ts)) as [[m ts1]|]; [|discriminate].
+        destruct (Nat.ltb_spec MAX_REFERENCE_DEPTH (S k)) as [Hlt|Hge]; [discriminate|].
+        destruct (R.steps_loop f nb (S k) ts1) as [[ss0 ts3]|] eqn:Hst; [|discriminate].
+        inversion H; subst. apply (rb_steps f IH) in Hst; [|lia]. rewrite okS_cons. bsolve.
+      + inversion H; subst. unfold okS, REPAIRED_ITERATIONS. cbn [length forallb].
+        rewrite Nat.add_0_r, andb_true_r.
+        destruct (Nat.ltb_spec k (S MAX_REFERENCE_DEPTH)); [reflexivity|lia].
+  Qed.
+End RB_step.
+
+Lemma RB_all f : RB f.
+Proof.
+  induction f as [|f IH]; [apply RB_0|].
+  constructor.
+  - apply rb_add_S, IH.
+  - apply rb_addl_S, IH.
+  - apply rb_bit_S, IH.
+  - apply rb_mul_S, IH.
+  - apply rb_mull_S, IH.
+  - apply rb_sing_S, IH.
+  - apply rb_un_S, IH.
+  - apply rb_prim_S, IH.
+  - apply rb_list_S, IH.
+  - apply rb_mem_S, IH.
+  - apply rb_ref_S, IH.
+  - apply rb_steps_S, IH.
+Qed.
+
+(* The first generation: 127 steps accepted, 128 never. *)
+Theorem reference_steps_bound fuel ts e rest :
+  R.parse_expr fuel ts = Some (e, rest) -> steps_ok_g REPAIRED_ITERATIONS e = true.
+Proof. apply (rb_add fuel (RB_all fuel)). Qed.
+
+Lemma repaired_pos : 1 <= REPAIRED_ITERATIONS.
+Proof. unfold REPAIRED_ITERATIONS. lia. Qed.
+Lemma pinned_pos : 1 <= PINNED_ITERATIONS.
+Proof. unfold PINNED_ITERATIONS, MAX_REFERENCE_DEPTH. lia. Qed.
+
+Lemma pa_add_repaired f ts e rest :
+  R.parse_addition f false ts = Some (e, rest) ->
+  exists e', D.parse_addition f ts = Ok (e', rest) /\ foldE e' = e /\ admissible e' = true.
+Proof.
+  intros H. pose proof (rb_add f (RB_all f) _ _ _ _ H) as Hs.
+  apply (pa_add REPAIRED_ITERATIONS f (PA_all REPAIRED_ITERATIONS repaired_pos f)) in H.
+  unfold Acc in H. rewrite Hs in H. exact H.
+Qed.
+
+(* MAIN THEOREM (repaired code), at equal fuel: whenever the reference parser accepts,
+   the second generation builds a tree that folds to the reference tree and is
+   admissible.  No hypothesis. *)
 Theorem delta_expr_is_reference_exact fuel ts e rest :
   R.parse_expr fuel ts = Some (e, rest) ->
-  if steps_ok e
-  then exists e', D.parse_expression_res fuel ts = Ok (e', rest) /\
-                  fold_negative_literals e' = e /\ admissible e' = true
-  else D.parse_expression_res fuel ts = Err DepthExceeded.
-Proof. intros H. apply (pa_add fuel (PA_all fuel)) in H. exact H. Qed.
+  exists e', D.parse_expression_res fuel ts = Ok (e', rest) /\
+             fold_negative_literals e' = e /\ admissible e' = true.
+Proof. apply pa_add_repaired. Qed.
 
 Theorem delta_expr_is_reference fuel ts e rest :
-  R.parse_expr fuel ts = Some (e, rest) -> steps_ok e = true ->
+  R.parse_expr fuel ts = Some (e, rest) ->
   exists fuel' e', D.parse_expression fuel' ts = Some (e', rest) /\
                    fold_negative_literals e' = e.
 Proof.
-  intros H Hs. apply delta_expr_is_reference_exact in H. rewrite Hs in H.
+  intros H. apply delta_expr_is_reference_exact in H.
   destruct H as (e' & Hd & Hf & _). exists fuel, e'. unfold D.parse_expression.
   rewrite Hd. split; [reflexivity|exact Hf].
+Qed.
+
+(* The parser BEFORE the repair (pinned commit), exact form: it builds the same tree,
+   or - exactly when the reference tree contains a reference with 127 steps - fails
+   with MaximumParseDepthExceeded. *)
+Theorem pinned_expr_is_reference_exact fuel ts e rest :
+  R.parse_expr fuel ts = Some (e, rest) ->
+  if steps_ok e
+  then exists e', D.parse_expression_pinned_res fuel ts = Ok (e', rest) /\
+                  fold_negative_literals e' = e /\ admissible e' = true
+  else D.parse_expression_pinned_res fuel ts = Err DepthExceeded.
+Proof.
+  intros H.
+  apply (pa_add PINNED_ITERATIONS fuel (PA_all PINNED_ITERATIONS pinned_pos fuel)) in H.
+  exact H.
 Qed.
 
 (* ------------------------------------------------------------------------- *)
@@ -1149,6 +1650,16 @@ Lemma expect_close_true ts : expect (is_close true) ts = expect isBracketRight t
 Proof. reflexivity. Qed.
 Lemma expect_close_false ts : expect (is_close false) ts = expect isParenRight ts.
 Proof. reflexivity. Qed.
+
+(* An accepted continuation of the steps loop started within the 128 iterations. *)
+Lemma D_steps_Ok_bound f k ts x : D.steps_loop f (S k) ts = Ok x ->
+  (MAX_REFERENCE_DEPTH <? S k)%nat = false.
+Proof.
+  destruct f as [|f]; [discriminate|]. rewrite D_steps_loop_S.
+  destruct (Nat.leb_spec REPAIRED_ITERATIONS (S k)) as [Hk|Hk]; [discriminate|]. intros _.
+  unfold REPAIRED_ITERATIONS in Hk.
+  destruct (Nat.ltb_spec MAX_REFERENCE_DEPTH (S k)); [lia|reflexivity].
+Qed.
 
 Record PB (f : nat) : Prop := {
   pb_add : forall ts e' rest, D.parse_addition f ts = Ok (e', rest) -> admissible e' = true ->
@@ -1374,15 +1885,15 @@ Section PB_step.
       apply (pb_list f IH) in Hl as (ts2' & HR & Hc); [|exact Ha].
       rewrite HR. rewrite ?expect_close_true, ?expect_close_false in Hc. rewrite Hc. reflexivity.
     - destruct (literal_of t) as [e0|] eqn:Hl; [|discriminate]. inversion H; subst.
-      destruct (literal_facts _ _ Hl) as (H1 & H2 & H3). rewrite H2. reflexivity.
+      destruct (literal_facts 0 _ _ Hl) as (H1 & H2 & H3). rewrite H2. reflexivity.
     - destruct (literal_of t) as [e0|] eqn:Hl; [|discriminate]. inversion H; subst.
-      destruct (literal_facts _ _ Hl) as (H1 & H2 & H3). rewrite H2. reflexivity.
+      destruct (literal_facts 0 _ _ Hl) as (H1 & H2 & H3). rewrite H2. reflexivity.
     - destruct (literal_of t) as [e0|] eqn:Hl; [|discriminate]. inversion H; subst.
-      destruct (literal_facts _ _ Hl) as (H1 & H2 & H3). rewrite H2. reflexivity.
+      destruct (literal_facts 0 _ _ Hl) as (H1 & H2 & H3). rewrite H2. reflexivity.
     - destruct (literal_of t) as [e0|] eqn:Hl; [|discriminate]. inversion H; subst.
-      destruct (literal_facts _ _ Hl) as (H1 & H2 & H3). rewrite H2. reflexivity.
+      destruct (literal_facts 0 _ _ Hl) as (H1 & H2 & H3). rewrite H2. reflexivity.
     - destruct (literal_of t) as [e0|] eqn:Hl; [|discriminate]. inversion H; subst.
-      destruct (literal_facts _ _ Hl) as (H1 & H2 & H3). rewrite H2. reflexivity.
+      destruct (literal_facts 0 _ _ Hl) as (H1 & H2 & H3). rewrite H2. reflexivity.
     - (* KStringLiteral *)
       destruct (take_strings ts1) as [bs ts2]. inversion H; subst. reflexivity.
   Qed.
@@ -1439,23 +1950,22 @@ Section PB_step.
     R.steps_loop (S f) false k ts = Some (map fold_step ss', rest).
   Proof.
     intros k ts ss' rest H Ha. rewrite D_steps_loop_S in H. rewrite steps_loop_S.
-    destruct (Nat.leb_spec MAX_REFERENCE_DEPTH k) as [Hk|Hk]; [discriminate|].
-    assert (Hk' : (MAX_REFERENCE_DEPTH <? S k)%nat = false).
-    { destruct (Nat.ltb_spec MAX_REFERENCE_DEPTH (S k)); [lia|reflexivity]. }
-    rewrite Hk'.
+    destruct (Nat.leb_spec REPAIRED_ITERATIONS k) as [Hk|Hk]; [discriminate|].
     destruct (isBracketLeft (hdk ts)).
     - apply bind_Ok in H as ([e ts1] & He & H). cbv beta iota in H.
       apply bind_Ok in H as (ts2 & Hp & H). cbv beta in H.
       apply bind_Ok in H as ([ss ts3] & Hst & H). cbv beta iota in H.
       inversion H; subst; clear H. andbs Ha.
+      pose proof (D_steps_Ok_bound _ _ _ _ Hst) as Hk'.
       apply (pb_add f IH) in He; [|assumption]. apply expect_r_Ok in Hp.
-      apply (pb_steps f IH) in Hst; [|assumption]. rewrite He, Hp, Hst. reflexivity.
+      apply (pb_steps f IH) in Hst; [|assumption]. rewrite He, Hp, Hk', Hst. reflexivity.
     - destruct (isDot (hdk ts)).
       + apply bind_Ok in H as ([m ts1] & Hid & H). cbv beta iota in H.
         apply bind_Ok in H as ([ss ts3] & Hst & H). cbv beta iota in H.
         inversion H; subst; clear H. andbs Ha.
+        pose proof (D_steps_Ok_bound _ _ _ _ Hst) as Hk'.
         apply expect_id_r_Ok in Hid.
-        apply (pb_steps f IH) in Hst; [|assumption]. rewrite Hid, Hst. reflexivity.
+        apply (pb_steps f IH) in Hst; [|assumption]. rewrite Hid, Hk', Hst. reflexivity.
       + inversion H; subst. reflexivity.
   Qed.
 
@@ -1526,36 +2036,47 @@ Proof. intros H Ha. apply (pb_add fuel (PB_all fuel)); assumption. Qed.
 (* The exact class of inputs on which the two generations differ              *)
 (* ------------------------------------------------------------------------- *)
 
-Lemma D_res_det f f' ts r r' :
-  D.parse_expression_res f ts = r -> r <> Fuel ->
-  D.parse_expression_res f' ts = r' -> r' <> Fuel -> r = r'.
+Lemma Dg_res_det lim f f' ts r r' :
+  D.parse_addition_g lim f ts = r -> r <> Fuel ->
+  D.parse_addition_g lim f' ts = r' -> r' <> Fuel -> r = r'.
 Proof.
   intros H Hn H' Hn'.
-  apply (D_parse_expression_mono f (Nat.max f f')) in H; [|lia|exact Hn].
-  apply (D_parse_expression_mono f' (Nat.max f f')) in H'; [|lia|exact Hn'].
+  apply (Dg_parse_addition_mono lim f (Nat.max f f')) in H; [|lia|exact Hn].
+  apply (Dg_parse_addition_mono lim f' (Nat.max f f')) in H'; [|lia|exact Hn'].
   congruence.
 Qed.
 
+Lemma D_res_det f f' ts r r' :
+  D.parse_expression_res f ts = r -> r <> Fuel ->
+  D.parse_expression_res f' ts = r' -> r' <> Fuel -> r = r'.
+Proof. apply Dg_res_det. Qed.
+
 (* A definite rejection is a rejection at every fuel. *)
-Lemma D_err_stable f ts e : D.parse_expression_res f ts = Err e ->
-  forall f', D.parse_expression f' ts = None.
+Lemma Dg_err_stable lim f ts e : D.parse_addition_g lim f ts = Err e ->
+  forall f', to_opt (D.parse_addition_g lim f' ts) = None.
 Proof.
-  intros H f'. unfold D.parse_expression.
-  destruct (D.parse_expression_res f' ts) as [x| |] eqn:H'; try reflexivity.
+  intros H f'.
+  destruct (D.parse_addition_g lim f' ts) as [x| |] eqn:H'; try reflexivity.
   exfalso. assert (Hx : @Err (expr * list tok) e = Ok x)
-    by (eapply (D_res_det f f' ts); eauto; discriminate).
+    by (eapply (Dg_res_det lim f f' ts); eauto; discriminate).
   discriminate.
 Qed.
 
-(* (a) The reference accepts and the second generation rejects: exactly when the
-   reference tree has a reference with 127 steps. *)
-Theorem reference_accepts_delta_rejects fuel ts e rest :
+Lemma D_err_stable f ts e : D.parse_expression_res f ts = Err e ->
+  forall f', D.parse_expression f' ts = None.
+Proof. apply Dg_err_stable. Qed.
+
+(* (a) After the repair the reference never accepts what the second generation rejects
+   ([delta_expr_is_reference_exact]).  BEFORE the repair (pinned commit): the reference
+   accepts and the second generation rejects exactly when the reference tree has a
+   reference with 127 steps. *)
+Theorem reference_accepts_pinned_rejects fuel ts e rest :
   R.parse_expr fuel ts = Some (e, rest) -> steps_ok e = false ->
-  D.parse_expression_res fuel ts = Err DepthExceeded /\
-  forall fuel', D.parse_expression fuel' ts = None.
+  D.parse_expression_pinned_res fuel ts = Err DepthExceeded /\
+  forall fuel', D.parse_expression_pinned fuel' ts = None.
 Proof.
-  intros H Hs. apply delta_expr_is_reference_exact in H. rewrite Hs in H.
-  split; [exact H|]. eapply D_err_stable; exact H.
+  intros H Hs. apply pinned_expr_is_reference_exact in H. rewrite Hs in H.
+  split; [exact H|]. eapply Dg_err_stable; exact H.
 Qed.
 
 (* (b) The second generation accepts: the reference accepts (the folded tree) iff the
@@ -1568,14 +2089,23 @@ Proof.
   intros H. split; [now apply reference_is_delta_on_admissible|].
   intros Hna fuel'. destruct (R.parse_expr fuel' ts) as [[e r]|] eqn:HR; [|reflexivity].
   exfalso. apply delta_expr_is_reference_exact in HR.
-  destruct (steps_ok e).
-  - destruct HR as (e'' & Hd & _ & Ha).
-    assert (Hx : Ok (e', rest) = Ok (e'', r))
-      by (eapply (D_res_det fuel fuel' ts); eauto; discriminate).
-    inversion Hx; subst. congruence.
-  - assert (Hx : Ok (e', rest) = @Err (expr * list tok) DepthExceeded)
-      by (eapply (D_res_det fuel fuel' ts); eauto; discriminate).
-    discriminate.
+  destruct HR as (e'' & Hd & _ & Ha).
+  assert (Hx : Ok (e', rest) = Ok (e'', r))
+    by (eapply (D_res_det fuel fuel' ts); eauto; discriminate).
+  inversion Hx; subst. congruence.
+Qed.
+
+(* Acceptance sets after the repair: the reference accepts ts (for some fuel) iff the
+   second generation accepts ts (for some fuel) with an admissible tree. *)
+Theorem acceptance_iff ts rest :
+  (exists fuel e, R.parse_expr fuel ts = Some (e, rest)) <->
+  (exists fuel e', D.parse_expression_res fuel ts = Ok (e', rest) /\ admissible e' = true).
+Proof.
+  split.
+  - intros (fuel & e & H). apply delta_expr_is_reference_exact in H.
+    destruct H as (e' & Hd & _ & Ha). eauto.
+  - intros (fuel & e' & Hd & Ha). exists fuel, (fold_negative_literals e').
+    now apply reference_is_delta_on_admissible.
 Qed.
 
 (* (c) `return`: the second-generation lexer has a keyword where the first has an
@@ -1606,12 +2136,14 @@ Definition vc := EDeref (Ref 0%N 3%N []).
 Fixpoint w_dots (n : nat) : list tok :=
   match n with O => [] | S n => tk KDot :: w_a :: w_dots n end.
 
-(* x.a.a...a with 127 member steps: accepted by the first generation, rejected
-   (MaximumParseDepthExceeded) by the second, whatever the fuel. *)
-Theorem delta_expr_is_reference_refuted :
+(* x.a.a...a with 127 member steps: accepted by the first generation; rejected
+   (MaximumParseDepthExceeded) by the second generation BEFORE the repair, whatever the
+   fuel; accepted with the same tree after the repair. *)
+Theorem pinned_rejects_127_steps_refuted :
   exists ts e, R.parse_expr 400 ts = Some (e, []) /\
-               D.parse_expression_res 400 ts = Err DepthExceeded /\
-               forall fuel, D.parse_expression fuel ts = None.
+               D.parse_expression_pinned_res 400 ts = Err DepthExceeded /\
+               (forall fuel, D.parse_expression_pinned fuel ts = None) /\
+               D.parse_expression 400 ts = Some (e, []).
 Proof.
   exists (w_a :: w_dots 127).
   destruct (R.parse_expr 400 (w_a :: w_dots 127)) as [[e r]|] eqn:HR;
@@ -1619,14 +2151,46 @@ Proof.
   assert (Hr : r = []) by (vm_compute in HR; inversion HR; reflexivity). subst r.
   exists e.
   assert (Hs : steps_ok e = false) by (vm_compute in HR; inversion HR; vm_compute; reflexivity).
-  destruct (reference_accepts_delta_rejects _ _ _ _ HR Hs) as [H1 H2].
-  repeat split; assumption.
+  destruct (reference_accepts_pinned_rejects _ _ _ _ HR Hs) as [H1 H2].
+  split; [reflexivity|]. split; [exact H1|]. split; [exact H2|].
+  destruct (delta_expr_is_reference_exact _ _ _ _ HR) as (e' & Hd & Hf & _).
+  unfold D.parse_expression. rewrite Hd. cbn [to_opt]. f_equal. f_equal.
+  rewrite <- Hf. vm_compute in Hd. inversion Hd. vm_compute. reflexivity.
 Qed.
 
 Example steps_126_agree :
   exists e, R.parse_expr 400 (w_a :: w_dots 126) = Some (e, []) /\
-            D.parse_expression 400 (w_a :: w_dots 126) = Some (e, []).
+            D.parse_expression 400 (w_a :: w_dots 126) = Some (e, []) /\
+            D.parse_expression_pinned 400 (w_a :: w_dots 126) = Some (e, []).
+Proof. eexists. repeat split; vm_compute; reflexivity. Qed.
+
+Example steps_127_agree :
+  exists e, R.parse_expr 400 (w_a :: w_dots 127) = Some (e, []) /\
+            D.parse_expression 400 (w_a :: w_dots 127) = Some (e, []).
 Proof. eexists. split; vm_compute; reflexivity. Qed.
+
+(* 128 steps: both reject; the second generation definitely (an error, not fuel), with
+   MaximumParseDepthExceeded, and so at every fuel.  Also with an index step last. *)
+Example steps_128_both_reject :
+  R.parse_expr 400 (w_a :: w_dots 128) = None /\
+  D.parse_expression_res 400 (w_a :: w_dots 128) = Err DepthExceeded /\
+  (forall fuel, D.parse_expression fuel (w_a :: w_dots 128) = None) /\
+  R.parse_expr 400 (w_a :: w_dots 127 ++ [tk KBracketLeft; w_b; tk KBracketRight]) = None /\
+  D.parse_expression_res 400 (w_a :: w_dots 127 ++ [tk KBracketLeft; w_b; tk KBracketRight])
+    = Err DepthExceeded.
+Proof.
+  assert (H : D.parse_expression_res 400 (w_a :: w_dots 128) = Err DepthExceeded)
+    by (vm_compute; reflexivity).
+  split; [vm_compute; reflexivity|]. split; [exact H|].
+  split; [eapply D_err_stable; exact H|]. split; vm_compute; reflexivity.
+Qed.
+
+(* At the boundary the two generations fail for the same reason also when the 128th
+   step is itself malformed (`.` not followed by an identifier): UnexpectedToken. *)
+Example steps_128th_malformed :
+  R.parse_expr 400 (w_a :: w_dots 127 ++ [tk KDot; tk KPlus]) = None /\
+  D.parse_expression_res 400 (w_a :: w_dots 127 ++ [tk KDot; tk KPlus]) = Err UnexpectedToken.
+Proof. split; vm_compute; reflexivity. Qed.
 
 (* `a + b & c`: the check "no bitwise operator after an unparenthesized binary
    expression" is a TODO in the second generation. *)
@@ -2428,12 +2992,11 @@ Qed.
 (* The comparison of `if`, at equal fuel. *)
 Theorem delta_comparison_is_reference f ts op l r rest :
   R.parse_comparison f ts = Some ((op, l, r), rest) ->
-  steps_ok l = true -> steps_ok r = true ->
   exists l' r', D.parse_comparison f ts = Ok ((op, l', r'), rest) /\
                 fold_negative_literals l' = l /\ fold_negative_literals r' = r /\
                 admissible l' = true /\ admissible r' = true.
 Proof.
-  unfold R.parse_comparison. intros H Hsl Hsr.
+  unfold R.parse_comparison. intros H.
   destruct (R.parse_addition f true ts) as [[l0 ts1]|] eqn:Hl; [|discriminate].
   destruct (cmpop_of (hdk ts1)) as [op0|] eqn:Hop; [|discriminate].
   destruct (R.parse_addition f true (tl ts1)) as [[r0 ts2]|] eqn:Hr; [|discriminate].
@@ -2441,10 +3004,8 @@ Proof.
   apply (pn_add f (PN_all f)) in Hl as [Hl Hs1].
   nr cmpop_of Hop.
   apply (pn_add f (PN_all f)) in Hr as [Hr Hs2]. rewrite <- Htl in Hr.
-  apply (pa_add f (PA_all f)) in Hl. unfold Acc in Hl. rewrite Hsl in Hl.
-  destruct Hl as (l' & Hdl & Hfl & Hal).
-  apply (pa_add f (PA_all f)) in Hr. unfold Acc in Hr. rewrite Hsr in Hr.
-  destruct Hr as (r' & Hdr & Hfr & Har).
+  apply pa_add_repaired in Hl. destruct Hl as (l' & Hdl & Hfl & Hal).
+  apply pa_add_repaired in Hr. destruct Hr as (r' & Hdr & Hfr & Har).
   exists l', r'. unfold D.parse_comparison.
   assert (Hcut : cut_reserved ts = (pre ts, suf ts))
     by (unfold pre, suf; destruct (cut_reserved ts); reflexivity).
@@ -2472,12 +3033,20 @@ Qed.
 
 Print Assumptions delta_expr_is_reference_exact.
 Print Assumptions delta_expr_is_reference.
+Print Assumptions reference_steps_bound.
 Print Assumptions reference_is_delta_on_admissible.
-Print Assumptions reference_accepts_delta_rejects.
 Print Assumptions delta_accepts_reference_iff_admissible.
+Print Assumptions acceptance_iff.
 Print Assumptions D_parse_expression_mono.
+Print Assumptions D_parse_expression_pinned_mono.
 Print Assumptions delta_comparison_is_reference.
 Print Assumptions reservation_is_cut.
+Print Assumptions pinned_expr_is_reference_exact.
+Print Assumptions reference_accepts_pinned_rejects.
+Print Assumptions pinned_rejects_127_steps_refuted.
+Print Assumptions steps_126_agree.
+Print Assumptions steps_127_agree.
+Print Assumptions steps_128_both_reject.
 Print Assumptions mul_chains_left.
 Print Assumptions as_chains_left.
 Print Assumptions unary_binds_tighter_than_as.
@@ -2485,7 +3054,6 @@ Print Assumptions add_over_mul.
 Print Assumptions mutant_mul_right_assoc_refuted.
 Print Assumptions mutant_as_once_refuted.
 Print Assumptions mutant_address_depth_refuted.
-Print Assumptions delta_expr_is_reference_refuted.
 Print Assumptions converse_refuted_bitwise_after_binary.
 Print Assumptions converse_refuted_shift_after_binary.
 Print Assumptions converse_refuted_illformed_type.
